@@ -103,4 +103,44 @@ CHECKS = {
         "note": "Trusted: rustc MIR; invariant rows of rules/tables/panic_compiler.json are human judgements with reasons; "
                 "third-party crates (syn, prettyplease, clap) out of scope; termination not decided.",
     },
+    "C08": {
+        "engine": "gencheck",
+        "level": "translation_validation",
+        "ref": "DESIGN.md §5 C08",
+        "technique": "translation validation: syn-parsed generated sources (both layouts) reduced to a normal form and compared "
+                     "cell by cell with the compiler's table dump; layout sibling comparison; rustc type-check",
+        "text": "Every parser the repository's own build generates - in the Functions layout and, with the arrays feature the "
+                "test command never sets, the Arrays layout, LR and GLR - is compared cell by cell with the table the compiler "
+                "computed (hook dump): every (state, token) action list, every (state, nonterminal) goto, every expected-token "
+                "list, enum orders, default_layout, settings fns, constants, recognisers; the two layouts are compared with "
+                "each other and accessor index dimensions are checked. Complete per program; the programs are the build's "
+                "corpus plus fixed witnesses, not all grammars.",
+        "note": "Trusted: the cfg(rustemo_verif) dump reads the same LRTable the generator reads; syn; the runtime only reads "
+                "the definition through the ParserDefinition accessors.",
+    },
+    "C10": {
+        "engine": "gencheck",
+        "level": "translation_validation",
+        "ref": "DESIGN.md §5 C10",
+        "technique": "translation validation of generated DefaultBuilder arms and action functions against the production "
+                     "list of the table dump (arity, binding order, argument order, fillers, linear use, vector direction)",
+        "text": "For each generated parser with the default builder, every production's reduce arm is compared with the "
+                "production (rhs, content-ness, right-nulled length): pop size, symbols drawn, binding pattern and p0..pk "
+                "order, argument order, None fillers only for the nulled tail; generated action functions must use every "
+                "content parameter exactly once and build vectors in input order. Complete per program (in-repo corpus + "
+                "witnesses); does not run any parser.",
+        "note": "Trusted: hook dump, syn; hand-maintained actions files (force off) are out of scope.",
+    },
+    "C11": {
+        "engine": "gencheck",
+        "level": "other",
+        "ref": "DESIGN.md §5 C11",
+        "technique": "rustc as the static checker on everything the build generates under both layout tags and on a fixed "
+                     "witness matrix; alias-cycle and identifier-validation rules",
+        "text": "rustc's type checker decides validity of all generated files of the repository's build in both table layouts "
+                "and of a fixed witness matrix (grammar x configuration) generated by a scratch-built rcomp; structural rules "
+                "for alias-only cycles and unvalidated identifiers. Finite corpus decided statically - not a claim over all "
+                "grammars.",
+        "note": "Trusted: rustc (sandbox stable toolchain). The generator's template logic is not proved for all grammar shapes.",
+    },
 }
